@@ -73,11 +73,13 @@ HIST_ASSUME = ["the reference is the literal one in the property: a from-scratch
                "only outputs of requested targets (as listed by plz itself) are compared"]
 
 register("C01", module="histchecks", fn="case_c01", replay="replay_c01", binaries=("simplz",),
+         known_class_map={"stale-execbit": "C01-exec-bit-not-hashed"},
          cases={"quick": 32, "thorough": 1500}, budget={"quick": 280, "thorough": 3300}, level="exploration",
          rule="history = generated repository (genrules with file and directory outputs, filegroups, text_files, optional subincluded build_defs; hash function and xattrs drawn per history) + 2-6 steps from: content edit, command change, add/remove source, rename an output, rename inside a directory output, env change incl. boundary shift, binary toggle, add/remove dependency, text_file change, output-preserving command change, revert to an earlier state, rm -rf plz-out, rewrite sources with identical bytes; each step followed by `plz build <request>` as a fresh simulated process under its own seeded schedule; evaluations = simulated invocations incl. reference builds; distinct_nontrivial = histories with >=2 steps",
          assumptions=HIST_ASSUME, components={"real": REAL_WHOLE, "stub": STUB_WHOLE})
 
 register("C02", module="histchecks", fn="case_c02", replay="replay_c02", binaries=("simplz",),
+         known_class_map={"stale-execbit": "C01-exec-bit-not-hashed"},
          cases={"quick": 32, "thorough": 1500}, budget={"quick": 280, "thorough": 3300}, level="exploration",
          rule="as C01 with a directory cache shared by the whole history (dircompress on/off, cache workers 0/2) and 3-7 steps biased towards rm -rf plz-out and reverts to earlier states, so that artifacts are restored from entries stored under other states (60% follow an A-B-A template; outputs in subdirectories and directory outputs are over-represented; in 30% a SECOND CHECKOUT of the same tree at another root shares the cache and builds alternate between the two); oracle: after every build the requested outputs equal the from-scratch no-cache build of the CURRENT tree",
          assumptions=HIST_ASSUME, components={"real": REAL_WHOLE, "stub": STUB_WHOLE})
@@ -151,7 +153,7 @@ def cmd_check(pid, tier):
     if os.environ.get("VERIF_BUDGET"):
         budget = int(os.environ["VERIF_BUDGET"])
     return framework.run_check(pid, c["module"], c["fn"], bindir, n, tier, c["level"], c["rule"], c["assumptions"], c["components"],
-                               extra=c.get("extra"), budget_s=budget)
+                               extra=c.get("extra"), budget_s=budget, replay_fn=c.get("replay"), known_class_map=c.get("known_class_map"))
 
 
 def cmd_replay(path):
